@@ -2,29 +2,34 @@
 (M) DataScope.tla: parent <- child maps under RW mutexes; threads doing locked
     read-modify-write increments and plain Set/Get through the child; invariants
     NoLostUpdate, OneHolder, ChildSetLeavesParent, ChildOverlays, termination; the
-    "nolock" variant (LockData without the mutex) must violate NoLostUpdate.
+    "nolock" variant (LockData without the mutex) must violate NoLostUpdate; the
+    get-or-create idiom of the scope-bound services (Lock ; Get ; create if absent ;
+    Commit) with OneInstance, and its "checkoutside" variant (plain read before the
+    locked section, no second look inside) which must violate it.
 (T) real chains of 1-3 data scopes driven by 2-5 goroutines (plain get/set, locked
     sections) with call/ret events; Trace_DataScope.tla decides linearizability with
     respect to the overlay semantics: TLC places every call's effect between its two
     events, the scope's mutex must be free for a plain effect, so nothing can take
     effect inside another goroutine's locked section; final values are checked too.
     The three get-or-create services built on the data lock (tasks.Unit.FromScope,
-    envs.Unit.Envs, waits.ForScope) must hand one instance to all concurrent callers."""
+    envs.Unit.Envs, waits.ForScope) must hand one instance to all concurrent callers --
+    also on a scope decorated to yield the processor after every data-scope call, which
+    widens any window between a read and the locked section that should contain it."""
 import json
 import vlib
 
 MANIFEST = dict(
     technique='TLA+ model of overlay lookup and the data lock checked by TLC (with regression variant); linearizability of recorded concurrent histories decided by a TLA+ trace spec (effects as internal steps, high-water acceptance); concurrent get-or-create services compared by instance identity',
     text='The model is exhaustive for 3 incrementers + 2 plain writers on parent and child. Real histories (chains up to depth 3, up to 5 goroutines, unique written values) are accepted only if some placement of every call\'s effect between its call and return explains all returned values and the final maps -- which fails exactly when an update under the lock is lost or a plain operation takes effect inside a locked section.',
-    note='A child Get that misses is two steps (child, then parent) as in the code. A service mutant that replaces the locker by an unsynchronised get-then-set is caught only probabilistically (no gate between its two calls).')
+    note='A child Get that misses is two steps (child, then parent) as in the code. The get-or-create services are also driven through a scope decorator that yields after every data-scope call (inert for code that reads under the lock), so a check made outside the locked section shows within a few rounds.')
 
 
 def run(ctx):
     q = ctx.quick
     for v, must in (('current', False), ('nolock', True)):
         for sc in ('C', 'P'):
-            cfg = ('SPECIFICATION Spec\nCONSTANTS\n  Incs = {1, 2, 3}\n  Setters = {4, 5}\n  IncScope = "%s"\n  Variant = "%s"\n'
-                   'INVARIANTS NoLostUpdate OneHolder ChildSetLeavesParent ChildOverlays\n%s' % (sc, v, '' if must else 'PROPERTY Terminates\n'))
+            cfg = ('SPECIFICATION Spec\nCONSTANTS\n  Incs = {1, 2, 3}\n  Setters = {4, 5}\n  Getters = {6, 7}\n  IncScope = "%s"\n  Variant = "%s"\n'
+                   'INVARIANTS NoLostUpdate OneHolder ChildSetLeavesParent ChildOverlays OneInstance\n%s' % (sc, v, '' if must else 'PROPERTY Terminates\n'))
             if not must:
                 ctx.tlc_must_pass('scope', 'DataScope', 'mc.cfg', workers=4, timeout=300, files={'mc.cfg': cfg}, name='DataScope %s on %s' % (v, sc))
             else:
@@ -32,6 +37,13 @@ def run(ctx):
                 ctx.cov['states'] -= r['distinct']; ctx.cov['transitions'] -= r['generated']
                 if 'NoLostUpdate' not in r['violated']:
                     raise vlib.Infra('spec self-test failed: nolock variant does not violate NoLostUpdate')
+    # regression variant of the get-or-create idiom: the check made with a plain read before the locked section
+    cfg = ('SPECIFICATION Spec\nCONSTANTS\n  Incs = {1}\n  Setters = {}\n  Getters = {6, 7}\n  IncScope = "P"\n  Variant = "checkoutside"\n'
+           'INVARIANTS OneInstance\n')
+    rg = ctx.tlc('scope', 'DataScope', 'mc.cfg', workers=2, timeout=300, files={'mc.cfg': cfg}, name='checkoutside variant (must violate OneInstance)')
+    ctx.cov['states'] -= rg['distinct']; ctx.cov['transitions'] -= rg['generated']
+    if 'OneInstance' not in rg['violated']:
+        raise vlib.Infra('spec self-test failed: the checkoutside variant does not create two instances')
     ctx.cov['exhaustive'] = True
     tf = ctx.tmp('c13.ndjson')
     g = ctx.vh(['datatrace', '--out', tf, '--n', '300' if q else '6000', '--seed', str(ctx.seed)])
